@@ -86,8 +86,8 @@ fn gen_lib(src: &mut Src) -> MLib {
         let na = if has_layout { src.usize_in(0, 3) } else { 0 };
         let ncut = if has_layout { src.usize_in(0, 3) } else { 0 };
         cells.push(MCell {
-            // names may begin or end with blanks: they are data
-            name: { let pat = *src.pick(&["tc{}", "tc{}", "tc{}", "tc{} ", " tc{}", "tc{}\t", "tc{}_αβγδεζηθικλμνξοπρστυφχψω_中文字符中文字符中文字符中文字符中文字符"]); pat.replace("{}", &ci.to_string()) },
+            // names may begin or end with blanks, and the first cell's may be the empty string: they are data
+            name: { let pat = *src.pick(&["tc{}", "tc{}", "tc{}", "tc{} ", " tc{}", "tc{}\t", "tc{}_αβγδεζηθικλμνξοπρστυφχψω_中文字符中文字符中文字符中文字符中文字符"]); let n = pat.replace("{}", &ci.to_string()); if ci == 0 && src.prob(1, 10) { String::new() } else { n } },
             has_layout,
             // a cell without a layout usually has an abstract; one time in four it has no view at all (a black box)
             has_abs: if has_layout { src.prob(1, 4) } else { !src.prob(1, 4) },
@@ -196,7 +196,8 @@ fn read_back(lib: &tet::library::Library) -> Result<Vec<MCell>, String> {
                 let i = ip.read().map_err(|_| "lock")?;
                 let loc = i.loc.abs().map_err(|e| format!("{:?}", e))?;
                 let tname = i.cell.read().map_err(|_| "lock")?.name.clone();
-                let target: usize = tname.trim().strip_prefix("tc").map(|s| s.chars().take_while(|c| c.is_ascii_digit()).collect::<String>()).and_then(|s| s.parse().ok()).ok_or("target name")?;
+                // (only the first cell may be named by the empty string)
+                let target: usize = if tname.is_empty() { 0 } else { tname.trim().strip_prefix("tc").map(|s| s.chars().take_while(|c| c.is_ascii_digit()).collect::<String>()).and_then(|s| s.parse().ok()).ok_or("target name")? };
                 mc.insts.push(MInst { name: i.inst_name.clone(), target, loc: (loc.x.num as i64, loc.y.num as i64), rh: i.reflect_horiz, rv: i.reflect_vert });
             }
             for a in &l.assignments {
